@@ -176,6 +176,11 @@ func (v *VC) ev(e SExpr, env *SpecEnv) TV {
 		}
 		if cell, ok := env.addr[x.Name]; ok {
 			et := cell.Type().Underlying().(*types.Pointer).Elem()
+			if a, isAlloc := cell.(*ssa.Alloc); isAlloc && a.Parent() == v.fn {
+				if sv := constCellValue(a); sv != nil {
+					return TV{T: v.val(sv), Typ: et}
+				}
+			}
 			return TV{T: v.load(et, v.val(cell), env.heap), Typ: et}
 		}
 		if tv, ok := env.vars[x.Name]; ok {
@@ -280,6 +285,17 @@ func (v *VC) ev(e SExpr, env *SpecEnv) TV {
 		}
 		return v.evField(b, x.Name, env)
 	case SIndex:
+		// an addressable array variable: elements live in the element heap at elm(&arr, i)
+		if id, ok := x.X.(SIdent); ok {
+			if _, isBound := env.bound[id.Name]; !isBound {
+				if cell, ok := env.addr[id.Name]; ok {
+					if arr, ok := cell.Type().Underlying().(*types.Pointer).Elem().Underlying().(*types.Array); ok {
+						i := v.ev(x.I, env)
+						return TV{T: v.load(arr.Elem(), fmt.Sprintf("(elm %s %s)", v.val(cell), i.T), env.heap), Typ: arr.Elem()}
+					}
+				}
+			}
+		}
 		b := v.ev(x.X, env)
 		i := v.ev(x.I, env)
 		if b.Typ == nil {
@@ -607,14 +623,25 @@ func (v *VC) evCall(x SCall, env *SpecEnv) TV {
 	}
 	// in-package function declared pure
 	if env.fn != nil && env.fn.Pkg != nil {
-		if f, ok := env.fn.Pkg.Members[x.Fn].(*ssa.Function); ok {
+		fname, resIdx := x.Fn, 0
+		if i := strings.Index(fname, "#"); i > 0 {
+			n, err := strconv.Atoi(fname[i+1:])
+			if err != nil {
+				specPanic("bad result selector in %s", fname)
+			}
+			fname, resIdx = fname[:i], n
+		}
+		if f, ok := env.fn.Pkg.Members[fname].(*ssa.Function); ok {
 			if ct := v.P.contractFor(f); ct != nil && ct.Pure {
 				var args []string
 				for _, a := range x.Args {
 					args = append(args, v.ev(a, env).T)
 				}
 				r := v.ufApp("uf_"+sanitize(fnKey(f)), f.Signature, "", args)
-				return TV{T: r[0], Typ: f.Signature.Results().At(0).Type()}
+				if resIdx >= len(r) {
+					specPanic("result selector out of range in %s", x.Fn)
+				}
+				return TV{T: r[resIdx], Typ: f.Signature.Results().At(resIdx).Type()}
 			}
 		}
 	}
